@@ -8,6 +8,7 @@ Strict == IOEnv.STRICT = "1"
 N == Len(Rec)
 
 TrSupOf == [a \in Actors |-> IF a = "A" THEN "S" ELSE IF a = "B" THEN "A" ELSE NoA]
+TrMonPairs == Actors \X Actors
 TrMax == [a \in Actors |-> 1000]
 TrEnvOps == [a \in Actors |-> {"stop", "kill", "drain", "abort", "selfkill", "selfstop"}]
 
@@ -53,6 +54,8 @@ EnvEv ==
   \/ IsA("obs.spawn_ret") /\ ac[X].pc # "none" /\ Same /\ Adv /\ ND
   \/ IsA("obs.send") /\ Send(X) /\ nsent'[X] = Ev.m /\ (Ev.d = 1) = SendOk(X) /\ Adv /\ ND
   \/ IsA("obs.kill") /\ Kill(X) /\ Adv /\ ND
+  \/ IsA("obs.monitor") /\ Ev.by \in Actors /\ Monitor(Ev.by, X) /\ Adv /\ ND
+  \/ IsA("obs.unmonitor") /\ Ev.by \in Actors /\ Unmonitor(Ev.by, X) /\ Adv /\ ND
   \/ IsA("obs.stop") /\ Stop(X, Ev.reason) /\ Adv /\ ND
   \/ IsA("obs.drain") /\ Drain(X) /\ Adv /\ ND
   \/ IsA("obs.inject") /\ Inject(X) /\ (Ev.d = 1) = ac[X].rxOpen /\ Adv /\ ND
@@ -86,8 +89,12 @@ FinOk(f) == /\ f.x \in Actors
             /\ ac[f.x].st = f.st
             /\ f.kids = Cardinality(Kids(f.x))
             /\ f.sup = (ac[f.x].par # NoA)
+\* at quiescence nothing is in flight: every actor is absent, idle with empty queues, or dead
+QuiescentOk == \A a \in Actors : /\ ac[a].pc \in {"none", "idle", "dead"}
+                                  /\ (ac[a].pc = "idle" => ac[a].supq = <<>> /\ ac[a].mq = <<>>)
 End == /\ IsA("obs.end") /\ Adv /\ Same /\ ND
        /\ \A i \in 1..Len(Ev.fin) : FinOk(Ev.fin[i])
+       /\ (Ev.q = 1 => QuiescentOk)
        /\ (dev # {} => PrintT(<<"DEVIATION", dev>>))
 
 Reset == /\ IsA("reset") /\ Adv
